@@ -22,6 +22,7 @@ pub struct Reporter {
     pub known_hits: u64,
     pub exit: i32,
     seed: u64,
+    attempts: u64,
 }
 
 impl Reporter {
@@ -34,6 +35,7 @@ impl Reporter {
             known_hits: 0,
             exit: 0,
             seed,
+            attempts: 0,
         }
     }
 
@@ -51,7 +53,8 @@ impl Reporter {
             }
             return;
         }
-        let name = format!("{}-{}", self.seed, self.violations);
+        let name = format!("{}-{}", self.seed, self.attempts);
+        self.attempts += 1;
         let mut v = f.replay.clone();
         if let Some(o) = v.as_object_mut() {
             o.insert("property".into(), Value::String(self.property.clone()));
